@@ -408,10 +408,16 @@ def _thread_bool(fn, local, pol, depth):
     definitions that all differ from the outcome taken and exactly one other definition, so that one produced the outcome
     and the conditions for reaching it held too."""
     defs = local_defs(fn).get(local, [])
-    consts = []; others = []
+    consts = []; others = []; cdefs = []
     for d in defs:
-        if d[0] == "s" and len(d[3]) == 1 and d[4][0] == "use" and d[4][1][0] == "c" and d[4][1][1].get("k") == "bool": consts.append(bool(d[4][1][1]["v"]))
+        if d[0] == "s" and len(d[3]) == 1 and d[4][0] == "use" and d[4][1][0] == "c" and d[4][1][1].get("k") == "bool":
+            consts.append(bool(d[4][1][1]["v"])); cdefs.append((bool(d[4][1][1]["v"]), d))
         else: others.append(d)
+    if not others and consts:
+        # `matches!(x, A | B)` spliced in: the local is only ever set to constants; the outcome names the assignment that ran
+        hit = [d for v, d in cdefs if v == pol]
+        if len(hit) == 1: return guards_of(fn, hit[0][1], _depth=depth + 1)
+        return None
     if len(others) != 1 or any(c == pol for c in consts): return None
     real = others[0]
     if real[0] not in ("call", "s") or (real[0] == "s" and len(real[3]) != 1): return None
@@ -708,6 +714,14 @@ class SymPath:
                 name = callee(t) or ("indirect", self.op(t[1]["indirect"]) if t[1].get("indirect") else "?")
                 e = ("call", name, args, b)
                 self.calls.append((b, name, args, t))
+                # `?` on a value whose variant is known on this path: Err(..)? breaks, Ok(..)? continues
+                if isinstance(name, str) and args:
+                    a0 = args[0]
+                    if name.endswith("as std::ops::Try>::branch") and isinstance(a0, tuple) and a0[0] == "agg" and str(a0[1]).startswith("std::result::Result::"):
+                        if str(a0[1]).endswith("::Err"): e = ("agg", "std::ops::ControlFlow::Break", [("0", a0)])
+                        elif str(a0[1]).endswith("::Ok"): e = ("agg", "std::ops::ControlFlow::Continue", [("0", a0[2][0][1] if a0[2] else ("unit",))])
+                    elif "FromResidual" in name and name.endswith("::from_residual") and "result::Result" in name:
+                        e = ("agg", "std::result::Result::Err", [("0", e)])
                 self.assign(t[3], e)
             elif t[0] == "switch" and nxt is not None:
                 d = self.op(t[1])
